@@ -1,5 +1,5 @@
 SPECIFICATION MCSpec
 CONSTANTS SmallN = 4
           AsIsMaps = FALSE
-INVARIANTS PTotal PRefl PSym PTransE PDecodeEqual PAntisym PTransC PScalarConsistent PTypeOrder
+INVARIANTS PTotal PRefl PSym PTransE PDecodeEqual PAntisym PTransC PScalarConsistent PTypeOrder PFresh PStable
 CHECK_DEADLOCK FALSE
